@@ -39,9 +39,13 @@ deriving Repr
 structure ExtractOut where
   pkgs : List Nat := []     -- ids of the packages it returns
   err : Bool := false       -- returns a non-nil error
-  other : Bool := false     -- returns inventory that is not a package (findings): counts as "produced results"
+  other : Bool := false     -- returns inventory that is neither a package nor a finding: counts as "produced results"
   panics : Bool := false    -- panics (the engine does not recover)
+  finds : List Nat := []    -- ids of the findings it returns (inventory that is not a package; counts as "produced results")
 deriving Repr
+
+/-- `inventory.Inventory.IsEmpty` of the result -/
+def ExtractOut.isEmpty (o : ExtractOut) : Bool := o.pkgs.isEmpty && !o.other && o.finds.isEmpty
 
 structure Cfg where
   nExt : Nat                                   -- extractors 0 … nExt-1 in configuration order
@@ -79,6 +83,13 @@ structure Pkg where
   loc : Path
 deriving DecidableEq, Repr
 
+/-- a reported finding: id, producing extractor, file it came from -/
+structure Fnd where
+  id : Nat
+  ext : Nat
+  loc : Path
+deriving DecidableEq, Repr
+
 /-- one `runExtractor` invocation: extractor, path, size of the file, and whether the file could be
 opened and stat'ed — only then is `Extract` really called -/
 structure Call where
@@ -102,6 +113,8 @@ structure St where
   found : List Nat := []         -- wc.foundInv (reset per root)
   pkgs : List Pkg := []          -- wc.inventory.Packages (reset per root)
   cancelled : Bool := false      -- ctx.Err() != nil
+  finds : List Fnd := []         -- findings of the roots completed so far followed by wc.inventory.Findings of the current root
+                                 -- (a scan-wide log like `calls`: `Run` appends each root's inventory to the overall one)
 deriving Repr
 
 /-- `strings.Split(path, "/")` of a walked path: the root is "." -/
@@ -147,8 +160,9 @@ def runExtractor (c : Cfg) (f : Faults) (s : St) (e : Nat) (p : Path) (size : Na
   let out := c.extract e p
   if out.panics then (s, true) else
   let s := if out.err then { s with errs := s.errs ++ [e] } else s
-  if out.pkgs.isEmpty && !out.other then (s, false)
-  else ({ s with found := s.found ++ [e], pkgs := s.pkgs ++ out.pkgs.map fun i => ⟨i, e, p⟩ }, false)
+  if out.isEmpty then (s, false)
+  else ({ s with found := s.found ++ [e], pkgs := s.pkgs ++ out.pkgs.map fun i => ⟨i, e, p⟩,
+                 finds := s.finds ++ out.finds.map fun i => ⟨i, e, p⟩ }, false)
 
 /-- the loop over extractors with the lazy size check (`fSize == -1` ⇔ `checked = false`) -/
 def extractLoop (c : Cfg) (f : Faults) (p : Path) (size : Nat) : St → List Nat → Bool → St × Option Err
@@ -309,14 +323,15 @@ structure RunResult where
   statuses : List (Nat × Status)  -- one entry per extractor per root, in emission order
   calls : List Call
   visited : Nat
+  finds : List Fnd := []          -- findings of the filesystem extractors, in collection order (empty when the scan fails)
 deriving Repr
 
 /-- `filesystem.Run`: all roots share one walk context; a failing root discards everything -/
 def runRoots (c : Cfg) : St → List Pkg → List (Nat × Status) → List (Node × Faults) → RunResult
-  | s, acc, sts, [] => ⟨.none, acc, sts, s.calls, s.visited⟩
+  | s, acc, sts, [] => ⟨.none, acc, sts, s.calls, s.visited, s.finds⟩
   | s, acc, sts, (r, f) :: rest =>
     let (s, e) := runRoot c f s r
-    if e ≠ .none then ⟨e, [], [], s.calls, s.visited⟩
+    if e ≠ .none then ⟨e, [], [], s.calls, s.visited, []⟩
     else runRoots c s (acc ++ s.pkgs) (sts ++ (List.range c.nExt).map fun x => (x, statusOf s x)) rest
 
 def run (c : Cfg) (roots : List (Node × Faults)) : RunResult :=
